@@ -9,3 +9,6 @@ func VerifCalcSizeFromValue(v int) int { return calcSizeFromValue(v) }
 
 // VerifCalcValueFromSize exposes calcValueFromSize.
 func VerifCalcValueFromSize(s int) int { return calcValueFromSize(s) }
+
+// VerifIsDecimal exposes isDecimal.
+func VerifIsDecimal(v float64) bool { return isDecimal(v) }
